@@ -22,6 +22,16 @@ from wannierberri.result import resultdict as _rd
 from wannierberri.result import EnergyResult
 
 
+def smooth_arrays(resultdict):
+    """{key: copy of dataSmooth} for the integrated entries that run() itself has just written as text (so that reading
+    the cached property here does not do anything run() has not done already)"""
+    out = {}
+    for k, v in resultdict.results.items():
+        if isinstance(v, EnergyResult) and "txt" in v.save_mode:
+            out[k] = np.array(v.dataSmooth, copy=True)
+    return out
+
+
 def energy_arrays(resultdict):
     """{key: ndarray copy} of the integrated (EnergyResult-like) entries of a ResultDict"""
     out = {}
@@ -110,7 +120,7 @@ class Harness:
             if h.disk is not None:
                 h.disk.op("savedata_enter")
             r = orig_savedata(self_, prefix, suffix, i_iter)
-            it = dict(i_iter=int(i_iter), data=energy_arrays(self_), prefix=prefix, suffix=suffix)
+            it = dict(i_iter=int(i_iter), data=energy_arrays(self_), smooth=smooth_arrays(self_), prefix=prefix, suffix=suffix)
             if h.snapshot_klist and obs.K_list is not None:
                 it["klist"] = [(id(K), float(K.factor)) for K in obs.K_list]
             if h.snapshot_klist and obs.K_list is not None and len(obs.K_list) > 0:
